@@ -740,6 +740,16 @@ func mon14Workload(args []string) int {
 					if rc.Status == pb.Receipt_SUCCESS && amt.Cmp(preS) > 0 {
 						viol("transfer:uncovered-accepted", fmt.Sprintf("block %d: transfer of %s succeeded although the sender held only %s", h, amtStr, preS))
 					}
+					// "moves exactly the stated amount ... and fails without effect when the sender cannot cover it": a
+					// well-formed positive amount that the sender holds together with the fee (gas used as the receipt
+					// says x the gas price) has to be moved
+					if rc.Status != pb.Receipt_SUCCESS && ok && amt.Sign() > 0 && amtStr == amt.String() {
+						need := new(big.Int).Add(amt, new(big.Int).Mul(new(big.Int).SetUint64(rc.GasUsed), big.NewInt(price)))
+						w.Count("obs_refused_transfers_judged", 1)
+						if need.Cmp(preS) <= 0 {
+							viol("transfer:coverable-transfer-refused", fmt.Sprintf("block %d: transfer of %s from %s (balance %s, gas used %d at price %d: amount and fee %s) to %s was refused: %.100s", h, amtStr, s, preS, rc.GasUsed, price, need, r, string(rc.Ret)))
+						}
+					}
 					// total change of all accounts = -(rounding loss) in [-(n-1), 0]
 					tot := new(big.Int).Sub(sumBal(post), sumBal(pre))
 					if tot.Sign() > 0 || tot.Cmp(big.NewInt(-int64(nAdmins-1))) < 0 {
